@@ -460,7 +460,9 @@ func tryReplay(vc *VC, o *Obligation, rep map[string]any) (confirmed bool) {
 	// prefer small inputs: slices of at most 256 elements if such a model exists
 	var small []*Term
 	for _, p := range ri.Params {
-		for path, t := range p.V.L {
+		for _, path := range sortedKeys(p.V.L) {
+			t := p.V.L[path]
+			_ = t
 			if strings.HasSuffix(path, ".len") || strings.HasSuffix(path, ".cap") {
 				small = append(small, mkCmp("le", t, mkInt(t.Sort, 256)))
 			}
